@@ -1,6 +1,7 @@
 package main
 
 import (
+	"hash/fnv"
 	"encoding/hex"
 	"errors"
 	"fmt"
@@ -309,7 +310,7 @@ type faultyWriter struct {
 	fired    bool
 	accepted []byte
 	calls    int
-	onFault  func() // called at the moment the writer first reports its fault (error or short write)
+	onFault  func() // called at the moment the writer first returns an error
 }
 
 var errFault = errors.New("injected fault")
@@ -317,7 +318,10 @@ var errFault = errors.New("injected fault")
 func (w *faultyWriter) Write(p []byte) (n int, err error) {
 	w.calls++
 	defer func() {
-		if (err != nil || n < len(p)) && w.onFault != nil {
+		// the moment the fault becomes VISIBLE to the caller: the first non-nil error. A short write
+		// without an error (mode 1) is not one — bufio's direct-write path passes it on unnoticed
+		// (only Flush turns it into io.ErrShortWrite), so the printer cannot know yet.
+		if err != nil && w.onFault != nil {
 			w.onFault()
 			w.onFault = nil
 		}
@@ -360,6 +364,16 @@ func (w *faultyWriter) Write(p []byte) (n int, err error) {
 // returned and the producer is quiescent. In a sequential script the producer is parked whenever a
 // reader runs (every wait returns with len(data) >= maxLength), so any such call was requested
 // AFTER the fault. Reported as a fourth field "/<n>"; absent without a counting source.
+// encAccepted: hex when short, otherwise length and FNV-1a hash (see Driver/Script.lean encAccepted)
+func encAccepted(b []byte) string {
+	if len(b) <= 96 {
+		return "x" + hex.EncodeToString(b)
+	}
+	h := fnv.New64a()
+	h.Write(b)
+	return fmt.Sprintf("y%d:%d", len(b), h.Sum64())
+}
+
 func (e *scriptEnv) armFault(w *faultyWriter) {
 	if e.src == nil || e.shared {
 		return
@@ -418,7 +432,7 @@ func (e *scriptEnv) execPrint(op string, h handle, a []string) (string, bool) {
 		default:
 			n, err = sq3.Fprint(w, h.s3, pv.p3, o.o3...)
 		}
-		return fmt.Sprintf("%d/%v/x%s", n, err != nil, hex.EncodeToString(w.accepted)) + e.afterFault(), true
+		return fmt.Sprintf("%d/%v/%s", n, err != nil, encAccepted(w.accepted)) + e.afterFault(), true
 	case "fwr": // fwr:h:opts:mode:k
 		if h.v != 3 {
 			return "na", true
@@ -430,7 +444,7 @@ func (e *scriptEnv) execPrint(op string, h handle, a []string) (string, bool) {
 		w := &faultyWriter{mode: atoi(a[3]), k: atoi(a[4])}
 		e.armFault(w)
 		n, err := sq3.Fwrite(w, fs, parseOpts(3, a[2]).o3...)
-		return fmt.Sprintf("%d/%v/x%s", n, err != nil, hex.EncodeToString(w.accepted)) + e.afterFault(), true
+		return fmt.Sprintf("%d/%v/%s", n, err != nil, encAccepted(w.accepted)) + e.afterFault(), true
 	}
 	return "", false
 }
